@@ -56,6 +56,8 @@ def canon(obj, _depth=0, _attr=None, shallow_names=False):
         if _attr in NONE_IS_EMPTY_LIST and obj is None:
             return ()
         return obj
+    if type(obj).__module__ == "numpy" and hasattr(obj, "item"):
+        obj = obj.item()   # a numpy scalar the caller handed over stands for the plain value
     if isinstance(obj, (bool, int, float)):
         return _num(obj)
     if isinstance(obj, dict):
